@@ -126,6 +126,10 @@ const SyntaxToken& Parser::peek(unsigned int LA) const
 
 LexedTokens::IndexType Parser::consume()
 {
+    // The end-of-file token is the sentinel all lookahead relies on: it's
+    // never moved past, whatever (erroneous) input makes a rule consume it.
+    if (tree_->tokenAt(curTkIdx_).kind() == SyntaxKind::EndOfFile)
+        return curTkIdx_;
     return curTkIdx_++;
 }
 
